@@ -45,11 +45,11 @@ func (f *Filter) Filter(subject any) {
 		v.ResultsFilteredByACLs = f.filterCheckServiceNodes(&v.Nodes)
 
 	case *structs.IndexedServiceTopology:
+		// (assigned, not only set: the endpoint evaluates a blocking query
+		// several times into the same reply)
 		filtered := f.filterServiceTopology(v.ServiceTopology)
-		if filtered {
-			v.FilteredByACLs = true
-			v.ResultsFilteredByACLs = true
-		}
+		v.FilteredByACLs = filtered
+		v.ResultsFilteredByACLs = filtered
 
 	case *structs.DatacenterIndexedCheckServiceNodes:
 		v.ResultsFilteredByACLs = f.filterDatacenterCheckServiceNodes(&v.DatacenterNodes)
@@ -67,12 +67,11 @@ func (f *Filter) Filter(subject any) {
 		f.filterIntentionMatch(v)
 
 	case *structs.IndexedNodeDump:
-		if f.filterNodeDump(&v.Dump) {
-			v.ResultsFilteredByACLs = true
-		}
+		filtered := f.filterNodeDump(&v.Dump)
 		if f.filterNodeDump(&v.ImportedDump) {
-			v.ResultsFilteredByACLs = true
+			filtered = true
 		}
+		v.ResultsFilteredByACLs = filtered
 
 	case *structs.IndexedServiceDump:
 		v.ResultsFilteredByACLs = f.filterServiceDump(&v.Dump)
@@ -147,15 +146,14 @@ func (f *Filter) Filter(subject any) {
 		v.ResultsFilteredByACLs = f.filterGatewayServices(&v.Services)
 
 	case *structs.IndexedNodesWithGateways:
-		if f.filterCheckServiceNodes(&v.Nodes) {
-			v.ResultsFilteredByACLs = true
-		}
+		filtered := f.filterCheckServiceNodes(&v.Nodes)
 		if f.filterGatewayServices(&v.Gateways) {
-			v.ResultsFilteredByACLs = true
+			filtered = true
 		}
 		if f.filterCheckServiceNodes(&v.ImportedNodes) {
-			v.ResultsFilteredByACLs = true
+			filtered = true
 		}
+		v.ResultsFilteredByACLs = filtered
 
 	default:
 		panic(fmt.Errorf("Unhandled type passed to ACL filter: %T %#v", subject, subject))
